@@ -1324,3 +1324,401 @@ Proof.
   - intros E. destruct Ht as [Ht|[Ht _]]; [rewrite Ht; auto | contradiction].
   - intros e He. destruct Ht as [Ht|[_ Ht]]; [rewrite Ht in He; eauto | exfalso; eapply Ht; eauto].
 Qed.
+
+(* --- dispatch --- *)
+
+Definition tclose_iff (s' s : socket) : Prop :=
+  forall e, s_timer s' = TClose e <-> s_timer s = TClose e.
+
+Lemma tclose_iff_refl : forall s, tclose_iff s s.
+Proof. unfold tclose_iff. tauto. Qed.
+Lemma tclose_iff_trans : forall a b c, tclose_iff a b -> tclose_iff b c -> tclose_iff a c.
+Proof. unfold tclose_iff. intros a b c H1 H2 e. rewrite H1. apply H2. Qed.
+
+(* fields no part of dispatch touches *)
+Definition disp_frame (s' s : socket) : Prop :=
+  s_local_seq_no s' = s_local_seq_no s /\ s_tx_buffer s' = s_tx_buffer s /\
+  s_syn_unacked_in_fin_wait s' = s_syn_unacked_in_fin_wait s.
+
+Lemma dispatch_timers_spec : forall cx s s1 tg,
+  tcp_dispatch_timers cx s = Ok (s1, tg) ->
+  disp_frame s1 s /\ s_tuple s1 = s_tuple s /\ tclose_iff s1 s /\
+  (s_state s1 = s_state s \/ (s_state s1 = Closed /\ user_timeout_expired cx s)).
+Proof.
+  intros cx s s1 tg H. unfold tcp_dispatch_timers in H.
+  set (s0 := if is_some (s_remote_last_ts s) then s else upd_remote_last_ts s (Some (cx_now cx))) in *.
+  assert (H0 : disp_frame s0 s /\ s_tuple s0 = s_tuple s /\ s_timer s0 = s_timer s /\ s_state s0 = s_state s /\
+               s_timeout s0 = s_timeout s /\
+               s_remote_last_ts s0 = match s_remote_last_ts s with Some t => Some t | None => Some (cx_now cx) end).
+  { unfold s0, disp_frame. destruct (s_remote_last_ts s) eqn:E; simpl; rewrite ?E; auto 10. }
+  destruct H0 as ((A1 & A2 & A3) & A4 & A5 & A6 & A7 & A8).
+  destruct (tcp_timed_out s0 (cx_now cx)) eqn:Eto.
+  - inv H. unfold disp_frame, tclose_iff. simpl. rewrite A1, A2, A3, A4, A5.
+    isplit; auto; try tauto. right. split; [reflexivity|].
+    unfold tcp_timed_out in Eto. rewrite A7, A8 in Eto. unfold user_timeout_expired.
+    destruct (s_timeout s) as [to|]; [|destruct (s_remote_last_ts s); discriminate Eto].
+    exists to. split; [reflexivity|]. destruct (s_remote_last_ts s); lia.
+  - destruct (timer_should_retransmit (s_timer s0) (cx_now cx)) eqn:Er.
+    + unfold obind in H. destruct (tcp_flight_size s0); try discriminate H.
+      assert (Hnc : forall e, s_timer s <> TClose e).
+      { intros e He. rewrite <- A5 in He. rewrite He in Er. discriminate Er. }
+      destruct (s_timer s0) eqn:Et0; simpl in Er; try discriminate Er;
+        match type of H with context [if ?c then _ else _] => destruct c end;
+        try match type of H with context [if ?c then _ else _] => destruct c end;
+        inv H; unfold disp_frame, tclose_iff; simpl; rewrite ?A1, ?A2, ?A3, ?A4, ?A6;
+        (isplit; auto; intros e; split; intros He; try discriminate He; exfalso; eapply Hnc; eauto).
+    + inv H. unfold disp_frame, tclose_iff. rewrite A1, A2, A3, A4, A5, A6. isplit; auto; tauto.
+Qed.
+
+Lemma dispatch_decide_spec : forall cx s s2 go tg,
+  tcp_dispatch_decide cx s = Ok (s2, go, tg) ->
+  s2 = s \/
+  (go = false /\ s2 = upd_tuple (tcp_set_state s Closed) None /\
+   timer_should_close (s_timer s) (cx_now cx) = true /\ s_state s <> Closed).
+Proof.
+  intros cx s s2 go tg H. unfold tcp_dispatch_decide in H. unfold obind in H.
+  destruct (tcp_seq_to_transmit cx s) as [b| |]; try discriminate H.
+  destruct b; [inv H; auto|].
+  destruct (tcp_ack_to_transmit s && tcp_delayed_ack_expired s (cx_now cx)); [inv H; auto|].
+  destruct (tcp_window_to_update s) as [b| |]; try discriminate H.
+  destruct b; [inv H; auto|].
+  destruct (tcp_state_eqb (s_state s) Closed) eqn:Ec; [inv H; auto|].
+  destruct (timer_should_keep_alive (s_timer s) (cx_now cx)); [inv H; auto|].
+  destruct (timer_should_zero_window_probe (s_timer s) (cx_now cx)); [inv H; auto|].
+  destruct (timer_should_close (s_timer s) (cx_now cx)) eqn:Es; inv H; auto.
+  right. isplit; auto. intros E. rewrite E in Ec. discriminate Ec.
+Qed.
+
+Lemma dispatch_build_data_spec : forall cx s repr s3 orepr zwp tg,
+  tcp_dispatch_build_data cx s repr = Ok (s3, orepr, zwp, tg) ->
+  s3 = s \/ s3 = upd_pending_fast_retransmit s false.
+Proof.
+  intros cx s repr s3 orepr zwp tg H. unfold tcp_dispatch_build_data in H. unfold obind in H.
+  destruct (usub _ _); try discriminate H. destruct (tcp_local_mss cx); try discriminate H.
+  destruct (s_pending_fast_retransmit s && (s_remote_win_len s >? 0)).
+  - inv H. auto.
+  - match type of H with match (match ?x with _ => _ end) with _ => _ end = _ => destruct x end;
+      try discriminate H.
+    match type of H with match (match ?x with _ => _ end) with _ => _ end = _ => destruct x end;
+      try discriminate H.
+    destruct (tcp_flight_size s); try discriminate H. inv H. auto.
+Qed.
+
+Lemma dispatch_build_spec : forall cx s t s3 orepr zwp ka tg,
+  tcp_dispatch_build cx s t = Ok (s3, orepr, zwp, ka, tg) ->
+  s3 = s \/ s3 = upd_pending_fast_retransmit s false.
+Proof.
+  intros cx s t s3 orepr zwp ka tg H. unfold tcp_dispatch_build in H. unfold obind in H.
+  match type of H with match ?x with _ => _ end = _ => destruct x as [[[[s3' orepr'] zwp'] tg']| |] eqn:Eb end;
+    try discriminate H.
+  assert (Hs : s3' = s \/ s3' = upd_pending_fast_retransmit s false).
+  { destruct (s_state s); try (inv Eb; auto; fail);
+      try (eapply dispatch_build_data_spec; eassumption).
+    destruct (s_syn_unacked_in_fin_wait s); [inv Eb; auto | eapply dispatch_build_data_spec; eassumption]. }
+  destruct orepr' as [repr|]; [|inv H; exact Hs].
+  match type of H with match ?x with _ => _ end = _ => destruct x end; try discriminate H.
+  inv H. exact Hs.
+Qed.
+
+Lemma dispatch_finish_spec : forall cx s repr zwp ka s4 tg,
+  tcp_dispatch_finish cx s repr zwp ka = (s4, tg) ->
+  disp_frame s4 s /\ s_state s4 = s_state s /\ tclose_iff s4 s /\
+  (s_tuple s4 = s_tuple s \/ (s_state s = Closed /\ s_tuple s4 = None)).
+Proof.
+  intros cx s repr zwp ka s4 tg H. unfold tcp_dispatch_finish in H.
+  set (s1 := upd_ack_delay_timer (upd_timer s (timer_rewind_keep_alive (s_timer s) (cx_now cx) (s_keep_alive s))) ADIdle) in *.
+  assert (H1 : disp_frame s1 s /\ s_state s1 = s_state s /\ tclose_iff s1 s /\ s_tuple s1 = s_tuple s).
+  { unfold s1, disp_frame, tclose_iff. simpl. isplit; auto.
+    intros e. destruct (s_timer s); simpl; split; intros He; try discriminate He; auto. }
+  destruct H1 as ((A1 & A2 & A3) & A4 & A5 & A6).
+  destruct zwp.
+  { inv H. unfold disp_frame, tclose_iff in *. simpl. rewrite ?A1, ?A2, ?A3, ?A4, ?A6. isplit; auto.
+    intros e. destruct (s_timer s); simpl; split; intros He; try discriminate He; auto. }
+  destruct ka.
+  { inv H. unfold disp_frame. isplit; auto. }
+  set (s2 := upd_remote_last_win _ _) in H.
+  assert (H2 : disp_frame s2 s1 /\ s_state s2 = s_state s1 /\ s_timer s2 = s_timer s1 /\ s_tuple s2 = s_tuple s1).
+  { unfold s2, disp_frame. destruct (repr_segment_len repr >? 0); simpl; auto 10. }
+  destruct H2 as ((B1 & B2 & B3) & B4 & B5 & B6).
+  set (s3 := if repr_segment_len repr >? 0 then upd_rtte s2 _ else s2) in H.
+  assert (H3 : disp_frame s3 s2 /\ s_state s3 = s_state s2 /\ s_timer s3 = s_timer s2 /\ s_tuple s3 = s_tuple s2).
+  { unfold s3, disp_frame. destruct (repr_segment_len repr >? 0); simpl; auto 10. }
+  destruct H3 as ((C1 & C2 & C3) & C4 & C5 & C6).
+  assert (H123 : disp_frame s3 s /\ s_state s3 = s_state s /\ tclose_iff s3 s /\ s_tuple s3 = s_tuple s).
+  { unfold disp_frame, tclose_iff in *. isplit; try congruence. intros e. rewrite C5, B5. apply A5. }
+  clear A1 A2 A3 A4 A5 A6 B1 B2 B3 B4 B5 B6 C1 C2 C3 C4 C5 C6.
+  destruct H123 as ((A1 & A2 & A3) & A4 & A5 & A6).
+  match type of H with (let '(_, _) := ?e in _) = _ => destruct e as [s5 tg5] eqn:E5 end.
+  assert (H5 : disp_frame s5 s3 /\ s_state s5 = s_state s3 /\ tclose_iff s5 s3 /\ s_tuple s5 = s_tuple s3).
+  { match type of E5 with (if ?c then _ else _) = _ => destruct c end; inv E5.
+    - unfold disp_frame, tclose_iff. simpl. isplit; auto.
+      intros e. destruct (s_timer s3); simpl; split; intros He; try discriminate He; auto.
+    - unfold disp_frame. isplit; auto. apply tclose_iff_refl. }
+  destruct H5 as ((B1 & B2 & B3) & B4 & B5 & B6).
+  destruct (tcp_state_eqb (s_state s5) Closed) eqn:Ecl; inv H.
+  - unfold disp_frame in *. simpl. isplit; try congruence.
+    + eapply tclose_iff_trans; [|exact A5]. intros e. simpl. apply B5.
+    + right. split; [|reflexivity]. rewrite B4, A4 in Ecl. destruct (s_state s); simpl in Ecl; congruence.
+  - unfold disp_frame in *. isplit; try congruence.
+    + eapply tclose_iff_trans; eassumption.
+    + left. congruence.
+Qed.
+
+(* summary of one dispatch *)
+Definition disp_rel (cx : ctx) (s s' : socket) : Prop :=
+  disp_frame s' s /\ tclose_iff s' s /\
+  (s_state s' = s_state s \/
+   (s_state s' = Closed /\ (time_wait_expired cx s \/ user_timeout_expired cx s))) /\
+  (s_tuple s' = s_tuple s \/ (s_state s' = Closed /\ s_tuple s' = None)).
+
+Lemma inv_disp_rel : forall cx s s' g, inv s g -> disp_rel cx s s' -> inv s' g.
+Proof.
+  intros cx s s' g (HJ & Hw & Hg & Htx & Htw & Htu & Hfl & Htc) ((F1 & F2 & F3) & Hti & Hst & Htp).
+  unfold inv, J, tx_len in *. rewrite F1, F2, F3.
+  assert (Hst' : s_state s' = s_state s \/ s_state s' = Closed) by tauto.
+  isplit; auto; try lia.
+  - destruct Hst' as [E|E]; rewrite E; auto.
+  - intros E. destruct Hst' as [E'|E']; [|congruence].
+    rewrite E' in E. destruct (Htw E) as [e He]. exists e. apply Hti. exact He.
+  - intros N1 N2. destruct Htp as [E|[E _]]; [|contradiction].
+    rewrite E. destruct Hst' as [E'|E']; [|contradiction]. rewrite E' in *. auto.
+  - intros Hx. destruct (Hfl Hx) as [E|E]; destruct Hst' as [E'|E']; rewrite E'; auto.
+  - intros e He. apply Hti in He. destruct (Htc e He) as [E|E]; destruct Hst' as [E'|E']; rewrite E'; auto.
+Qed.
+
+Lemma dispatch_step : forall cx s g emit_ok s' res tags,
+  inv s g -> tcp_dispatch cx s emit_ok = Ok (s', res, tags) ->
+  (s' = s \/ (s' = tcp_reset s /\ address_removed cx s) \/ disp_rel cx s s').
+Proof.
+  intros cx s g emit_ok s' res tags Hinv H. unfold tcp_dispatch in H.
+  destruct (s_tuple s) as [t|] eqn:Etu; [|inv H; auto].
+  destruct (Z.eqb_spec (tu_local_addr t) (cx_addr cx)) as [Ea|Ea]; simpl in H.
+  2:{ inv H. right. left. split; [reflexivity|]. exists t. auto. }
+  right. right.
+  unfold obind in H.
+  destruct (tcp_dispatch_timers cx s) as [[s1 t1]| |] eqn:E1; try discriminate H.
+  apply dispatch_timers_spec in E1. destruct E1 as (A1 & A2 & A3 & A4).
+  assert (R1 : disp_rel cx s s1).
+  { unfold disp_rel. isplit; auto. destruct A4 as [A4|[A4 A4']]; [left; exact A4 | right; auto]. }
+  destruct (tcp_dispatch_decide cx s1) as [[[s2 go] t2]| |] eqn:E2; try discriminate H.
+  apply dispatch_decide_spec in E2.
+  assert (R2 : disp_rel cx s s2).
+  { destruct E2 as [->|(G1 & G2 & G3 & G4)]; [exact R1|]. subst s2.
+    destruct R1 as ((F1 & F2 & F3) & Hti & Hst & Htp).
+    unfold disp_rel, disp_frame, tclose_iff. simpl. isplit; auto.
+    right. split; [reflexivity|]. left.
+    destruct (s_timer s1) as [| | | |e] eqn:Et1; simpl in G3; try discriminate G3.
+    assert (He : s_timer s = TClose e) by (apply Hti; exact Et1).
+    destruct Hinv as (_ & _ & _ & _ & _ & _ & _ & Htc).
+    assert (Hs1 : s_state s1 = s_state s) by (destruct Hst as [E|[E _]]; [exact E | contradiction]).
+    destruct (Htc e He) as [E|E]; [|congruence].
+    split; [exact E|]. exists e. split; [exact He | lia]. }
+  destruct go; [|inv H; exact R2].
+  destruct (tcp_dispatch_build cx s2 t) as [[[[[s3 orepr] zwp] ka] t3]| |] eqn:E3; try discriminate H.
+  apply dispatch_build_spec in E3.
+  assert (R3 : disp_rel cx s s3).
+  { destruct E3 as [->| ->]; [exact R2|].
+    destruct R2 as ((F1 & F2 & F3) & Hti & Hst & Htp). unfold disp_rel, disp_frame, tclose_iff. simpl.
+    isplit; auto. }
+  destruct orepr as [repr|]; [|inv H; exact R3].
+  destruct emit_ok; simpl in H; [|inv H; exact R3].
+  destruct (tcp_dispatch_finish cx s3 repr zwp ka) as [s4 t4] eqn:E4. inv H.
+  apply dispatch_finish_spec in E4. destruct E4 as ((B1 & B2 & B3) & B4 & B5 & B6).
+  destruct R3 as ((F1 & F2 & F3) & Hti & Hst & Htp).
+  unfold disp_rel, disp_frame.
+  split; [isplit; congruence|].
+  split; [eapply tclose_iff_trans; eassumption|].
+  split; [rewrite B4; exact Hst|].
+  destruct B6 as [B6|[B6 B6']].
+  - rewrite B6, B4. exact Htp.
+  - right. split; [congruence | exact B6'].
+Qed.
+
+(* ================================================================== *)
+(** * 5. Every event                                                   *)
+(* ================================================================== *)
+
+Lemma allowed_refl : forall s g cx ev, allowed s g cx ev (s_state s).
+Proof. intros. unfold allowed. left. reflexivity. Qed.
+
+Lemma listen_step : forall s g cx ep s1,
+  inv s g -> tcp_listen s ep = Ok s1 ->
+  allowed s g cx (EvListen ep) (s_state s1) /\ inv s1 g.
+Proof.
+  intros s g cx ep s1 Hinv H. unfold tcp_listen in H.
+  destruct (le_port ep =? 0); [discriminate H|].
+  destruct (tcp_is_open s) eqn:Eo.
+  - destruct (tcp_state_eqb (s_state s) Listen && listen_endpoint_eqb (s_listen_endpoint s) ep);
+      inv H. split; [apply allowed_refl | exact Hinv].
+  - inv H. simpl.
+    split.
+    + unfold allowed. right. split; [|reflexivity].
+      unfold tcp_is_open in Eo. destruct (s_state s); try discriminate Eo; auto.
+    + pose proof (inv_reset s g Hinv) as (HJ & Hw & Hg & Htx & Htw & Htu & Hfl & Htc).
+      destruct (reset_spec s) as (R1 & R2 & R3 & R4 & R5 & R6 & R7).
+      unfold inv, J, tx_len in *. simpl. rewrite R2, R3, R4, R5, R7 in *.
+      isplit; auto; try discriminate; try lia; try congruence.
+Qed.
+
+Lemma connect_step : forall s g cx ra rp local s1,
+  inv s g -> wf_ctx cx -> tcp_connect cx s ra rp local = Ok s1 ->
+  allowed s g cx (EvConnect ra rp local) (s_state s1) /\ inv s1 (mkGhost (cx_isn cx) 0).
+Proof.
+  intros s g cx ra rp local s1 Hinv Hcx H. unfold tcp_connect in H.
+  destruct (tcp_is_open s) eqn:Eo; [discriminate H|].
+  destruct ((rp =? 0) || (ra =? 0)); [discriminate H|].
+  destruct (le_port local =? 0); [discriminate H|].
+  unfold obind in H.
+  match type of H with match ?x with _ => _ end = _ => destruct x as [la| |]; try discriminate H end.
+  inv H. simpl. split.
+  - unfold allowed. right. split; [|reflexivity].
+    unfold tcp_is_open in Eo. destruct (s_state s); try discriminate Eo; auto.
+  - pose proof (inv_reset s g Hinv) as (HJ & Hw & Hg & Htx & Htw & Htu & Hfl & Htc).
+    destruct (reset_spec s) as (R1 & R2 & R3 & R4 & R5 & R6 & R7).
+    unfold inv, J, tx_len in *. simpl. rewrite R3, R4, R5, R7 in *.
+    isplit; auto; try discriminate; try lia; try congruence.
+Qed.
+
+Lemma close_step : forall s g cx,
+  inv s g -> allowed s g cx EvClose (s_state (tcp_close s)) /\ inv (tcp_close s) g.
+Proof.
+  intros s g cx (HJ & Hw & Hg & Htx & Htw & Htu & Hfl & Htc). unfold tcp_close.
+  assert (Hnf : s_state s <> FinWait1 -> s_state s <> Closed -> s_syn_unacked_in_fin_wait s = false).
+  { intros N1 N2. destruct (s_syn_unacked_in_fin_wait s); [|reflexivity]. destruct (Hfl eq_refl); contradiction. }
+  unfold allowed, inv, J, tx_len in *.
+  destruct (s_state s) eqn:Es; simpl; rewrite ?Es;
+    try (split; [left; reflexivity | isplit; auto; try lia]);
+    (split; [right; auto 10 | ]);
+    isplit; auto; try lia; try discriminate; try congruence;
+    try (rewrite Hnf by discriminate; assumption);
+    try (intros e He; destruct (Htc e He); discriminate);
+    try (intros _ _; apply Htu; discriminate);
+    try (intros Hx; rewrite Hnf in Hx by discriminate; discriminate Hx).
+Qed.
+
+Lemma abort_step : forall s g cx,
+  inv s g -> allowed s g cx EvAbort (s_state (tcp_abort s)) /\ inv (tcp_abort s) g.
+Proof.
+  intros s g cx (HJ & Hw & Hg & Htx & Htw & Htu & Hfl & Htc). unfold tcp_abort.
+  unfold allowed, inv, J, tx_len in *. simpl.
+  split; [right; reflexivity|]. isplit; auto; try lia; try discriminate; try congruence.
+Qed.
+
+Lemma send_step : forall s g data s1 n,
+  inv s g -> tcp_send_slice s data = Ok (s1, n) ->
+  s_state s1 = s_state s /\ inv s1 (mkGhost (g_iss g) (g_sent g + n)).
+Proof.
+  intros s g data s1 n (HJ & Hw & Hg & Htx & Htw & Htu & Hfl & Htc) H. unfold tcp_send_slice in H.
+  destruct (tcp_may_send s) eqn:Em; [|discriminate H]. cbn [negb] in H. cbv iota in H.
+  destruct (rb_enqueue_slice (s_tx_buffer s) data) as [tx n'] eqn:Ee.
+  apply rb_enqueue_slice_len in Ee; [|exact Htx]. destruct Ee as (L1 & L2 & L3).
+  assert (Hst : s_state s = Established \/ s_state s = CloseWait).
+  { unfold tcp_may_send in Em. destruct (s_state s); try discriminate Em; auto. }
+  assert (Hflag : s_syn_unacked_in_fin_wait s = false).
+  { destruct (s_syn_unacked_in_fin_wait s); [|reflexivity]. destruct (Hfl eq_refl) as [E|E]; destruct Hst; congruence. }
+  assert (K : forall s2, s_state s2 = s_state s -> s_local_seq_no s2 = s_local_seq_no s ->
+              s_tx_buffer s2 = tx -> s_syn_unacked_in_fin_wait s2 = s_syn_unacked_in_fin_wait s ->
+              s_tuple s2 = s_tuple s ->
+              (s_timer s2 = s_timer s \/ exists a b, s_timer s2 = TZeroWindowProbe a b) ->
+              inv s2 (mkGhost (g_iss g) (g_sent g + n'))).
+  { intros s2 K1 K2 K3 K4 K5 K6. unfold inv, J, tx_len in *. rewrite K1, K2, K3, K4, K5.
+    unfold own_fin_seq in *. simpl.
+    isplit; auto; try lia.
+    - destruct Hst as [E|E]; rewrite E in *; rewrite L1, <- seq_add_add, HJ, seq_add_add; f_equal; lia.
+    - intros E. destruct Hst; congruence.
+    - intros e He. destruct K6 as [K6|(a & b & K6)]; [rewrite K6 in He; eauto | rewrite K6 in He; discriminate He]. }
+  destruct (n' >? 0).
+  - repeat match type of H with context [if ?c then _ else _] => destruct c end;
+      inv H; (split; [reflexivity|]); apply K; simpl; auto; right; unfold timer_set_for_zero_window_probe; eauto.
+  - inv H. split; [reflexivity|]. apply K; auto.
+Qed.
+
+Lemma ingress_step : forall cx s g ip r s' rep tags,
+  inv s g -> wf_ctx cx -> wf_repr r ->
+  iface_tcp_ingress cx s ip r = Ok (s', rep, tags) -> seg_post cx s g r s'.
+Proof.
+  intros cx s g ip r s' rep tags Hinv Hcx Hwf H. unfold iface_tcp_ingress in H.
+  assert (Hsame : seg_post cx s g r s).
+  { apply seg_post_unchanged; [exact Hinv | apply same_conn_refl | left; reflexivity]. }
+  destruct ((ip_src ip =? 0) || (ip_dst ip =? 0)); [inv H; exact Hsame|].
+  destruct ((r_src_port r =? 0) || (r_dst_port r =? 0)); [inv H; exact Hsame|].
+  destruct (tcp_accepts s ip r).
+  - eapply process_step; eassumption.
+  - destruct (control_eqb (r_control r) CRst); [inv H; exact Hsame|].
+    unfold obind in H. destruct (tcp_rst_reply ip r); inv H. exact Hsame.
+Qed.
+
+(* THE step theorem: every event, from every state satisfying the invariant, moves the socket
+   along an allowed edge, and the invariant holds again (with the ghost updated from the inputs). *)
+Theorem step_ok : forall cx s g ev s' out tags,
+  inv s g -> wf_ctx cx -> wf_event ev ->
+  tcp_step cx s ev = Ok (s', out, tags) ->
+  allowed s g cx ev (s_state s') /\ inv s' (ghost_step cx s g ev s' out).
+Proof.
+  intros cx s g ev s' out tags Hinv Hcx Hwf H.
+  destruct ev; simpl in H.
+  - (* listen *)
+    destruct (tcp_listen s ep) eqn:E; inv H.
+    + simpl. eapply listen_step; eassumption.
+    + split; [apply allowed_refl | exact Hinv].
+  - (* connect *)
+    destruct (tcp_connect cx s remote_addr remote_port local) eqn:E; inv H.
+    + simpl. eapply connect_step; eassumption.
+    + split; [apply allowed_refl | exact Hinv].
+  - inv H. simpl. apply close_step. exact Hinv.
+  - inv H. simpl. apply abort_step. exact Hinv.
+  - (* send *)
+    destruct (tcp_send_slice s data) as [[s1 n]| |] eqn:E; inv H.
+    + simpl. apply send_step with (g := g) in E; [|exact Hinv]. destruct E as [E1 E2].
+      split; [unfold allowed; left; exact E1 | exact E2].
+    + split; [apply allowed_refl | exact Hinv].
+  - (* recv *)
+    destruct (tcp_recv_slice s n) as [[s1 l]| |] eqn:E; inv H.
+    + simpl. unfold tcp_recv_slice in E. unfold obind in E.
+      destruct (tcp_recv_error_check s); try discriminate E.
+      destruct (rb_dequeue_slice (s_rx_buffer s) n) as [rx bytes]. inv E.
+      split; [unfold allowed; left; reflexivity|].
+      eapply inv_frame; [exact Hinv | | | | | |]; simpl; auto.
+    + split; [apply allowed_refl | exact Hinv].
+  - destruct (tcp_peek s n); inv H; (split; [apply allowed_refl | exact Hinv]).
+  - destruct (tcp_peek_slice s n); inv H; (split; [apply allowed_refl | exact Hinv]).
+  - inv H. simpl. split; [unfold allowed; left; reflexivity|].
+    eapply inv_frame; [exact Hinv | | | | | |]; simpl; auto.
+  - (* set_keep_alive *)
+    inv H. simpl. unfold tcp_set_keep_alive.
+    assert (K : forall s2, s_state s2 = s_state s -> s_local_seq_no s2 = s_local_seq_no s ->
+                s_tx_buffer s2 = s_tx_buffer s ->
+                s_syn_unacked_in_fin_wait s2 = s_syn_unacked_in_fin_wait s -> s_tuple s2 = s_tuple s ->
+                (s_timer s2 = s_timer s \/ (exists k, s_timer s = TIdle k /\ exists k', s_timer s2 = TIdle k')) ->
+                allowed s g cx (EvSetKeepAlive d) (s_state s2) /\ inv s2 g).
+    { intros s2 K1 K2 K3 K4 K5 K6. split; [unfold allowed; left; exact K1|].
+      eapply inv_frame; [exact Hinv | | | | | |]; auto.
+      destruct K6 as [K6|(k & K6 & k' & K7)]; [left; exact K6|].
+      right. split.
+      - intros E. destruct Hinv as (_ & _ & _ & _ & Htw & _). destruct (Htw E) as [e He]. congruence.
+      - intros e He. congruence. }
+    destruct (is_some d); apply K; simpl; auto.
+    destruct (s_timer s) as [[k|]| | | |]; simpl; auto. right. eauto.
+  - inv H. simpl. split; [unfold allowed; left; reflexivity|].
+    eapply inv_frame; [exact Hinv | | | | | |]; simpl; auto.
+  - inv H. simpl. split; [unfold allowed; left; reflexivity|].
+    eapply inv_frame; [exact Hinv | | | | | |]; simpl; auto.
+  - unfold obind in H. destruct (tcp_set_hop_limit s h) as [s1| |] eqn:E; inv H.
+    unfold tcp_set_hop_limit in E. destruct h as [[|p|p]|]; inv E; simpl;
+      (split; [unfold allowed; left; reflexivity|]);
+      (eapply inv_frame; [exact Hinv | | | | | |]; simpl; auto).
+  - (* segment *)
+    unfold obind in H. destruct (iface_tcp_ingress cx s ip r) as [[[s1 reply] tg]| |] eqn:E; inv H.
+    eapply ingress_step in E; eauto. destruct E as (E1 & E2 & _).
+    split; [|exact E2]. unfold allowed. destruct E1 as [E1|E1]; [left; exact E1 | right; exact E1].
+  - (* dispatch *)
+    unfold obind in H. destruct (tcp_dispatch cx s emit_ok) as [[[s1 res] tg]| |] eqn:E; inv H.
+    simpl. eapply dispatch_step in E; [|exact Hinv].
+    destruct E as [->|[[-> Ha]|Hr]].
+    + split; [apply allowed_refl | exact Hinv].
+    + split; [|apply inv_reset; exact Hinv].
+      unfold allowed. right. split; [apply reset_spec|]. right. right. exact Ha.
+    + split; [|eapply inv_disp_rel; eassumption].
+      destruct Hr as (_ & _ & [Hs|[Hs Hw']] & _); unfold allowed; [left; exact Hs|].
+      right. split; [exact Hs|]. destruct Hw' as [Hw'|Hw']; auto.
+Qed.
